@@ -11,5 +11,8 @@ def run(pid, tier, replay):
     if pid == "C20":
         from . import p_width
         return p_width.main(pid, tier, replay)
+    if pid == "C09":
+        from . import p_lex
+        return p_lex.main(pid, tier, replay)
     print("unknown or unclaimed property %s" % pid)
     return 2
